@@ -115,8 +115,11 @@ def append_modules(scratch):
             f.write(open(p).read())
     # offline config
     os.makedirs(os.path.join(scratch, '.cargo'), exist_ok=True)
-    with open(os.path.join(scratch, '.cargo', 'config.toml'), 'a') as f:
-        f.write('\n[net]\noffline = true\n')
+    cfgp = os.path.join(scratch, '.cargo', 'config.toml')
+    cur = open(cfgp).read() if os.path.exists(cfgp) else ''
+    if not re.search(r'^\[net\]', cur, re.M):
+        with open(cfgp, 'a') as f:
+            f.write('\n[net]\noffline = true\n')
 
 
 def _env():
@@ -281,6 +284,58 @@ def concrete_playback(scratch, ob, mem_kb, timeout_s, cbmc_args=None, log_dir=No
     if not cands:
         return None, log
     return cands, log
+
+
+DROP_RECURSION = ['std::ptr::drop_in_place::<serde_json::Value>', 'std::ptr::drop_glue::<serde_json::Value>']
+DROP_LOOPS_RE = [
+    r'^std::ptr::drop_glue::<\[serde_json::Value\]>$',
+    r'^<std::collections::btree_map::IntoIter<std::string::String, serde_json::Value> as std::ops::Drop>::drop$',
+    r'^alloc::collections::btree::navigate::<impl .*marker::Dying, std::string::String, serde_json::Value, .*>::(deallocating_next|deallocating_end|first_leaf_edge)(::<.*>)?$',
+]
+
+
+def codegen_only(scratch, obs, log_dir=None, tag='codegen'):
+    cmd = ['cargo', 'kani'] + BASE_FLAGS + ['--only-codegen', '--exact']
+    for o in obs:
+        cmd += ['--harness', o.full]
+    p = subprocess.run(cmd, cwd=scratch, env=_env(), stdout=subprocess.PIPE, stderr=subprocess.STDOUT, text=True, timeout=1200)
+    if log_dir:
+        with open(os.path.join(log_dir, 'kani_%s.log' % tag), 'w') as f:
+            f.write(p.stdout)
+    return p.returncode, p.stdout
+
+
+def drop_cut_unwindset(scratch, obs, depth):
+    """Identifiers (mangled, with crate hashes: looked up on every run) of the Value drop glue. Recursion of
+    drop_in_place/drop_glue::<Value> is limited to `depth`, the container-drop loops to `depth` iterations;
+    unwinding assertions stay ON, so a harness that would drop deeper FAILS its unwinding assertion (-> undecided)
+    instead of silently ignoring the drop."""
+    outs = []
+    for dp, dn, fn in os.walk(os.path.join(scratch, 'target', 'kani')):
+        for f in fn:
+            if f.endswith('.out') and not f.endswith('.symtab.out'):
+                outs.append(os.path.join(dp, f))
+    ids = {}
+    for out in outs:
+        if not any(o.harness in out for o in obs):
+            continue
+        p = subprocess.run(['goto-instrument', '--list-goto-functions', out], stdout=subprocess.PIPE,
+                           stderr=subprocess.DEVNULL, text=True, timeout=600)
+        for line in p.stdout.splitlines():
+            m = re.match(r'^(.*) /\* (\S+) \*/$', line)
+            if not m:
+                continue
+            pretty, mangled = m.group(1).strip(), m.group(2)
+            if pretty in DROP_RECURSION:
+                ids[mangled] = '%s:%d' % (mangled, depth)
+            else:
+                for rx in DROP_LOOPS_RE:
+                    if re.match(rx, pretty):
+                        ids[mangled + '.0'] = '%s.0:%d' % (mangled, depth + 1)
+    have_rec = sum(1 for k in ids if not k.endswith('.0'))
+    if have_rec < 1:
+        return None
+    return ','.join(sorted(ids.values()))
 
 
 REPLAY_MAIN = '''
